@@ -158,8 +158,23 @@ pub mod presolve {
 /// C11: the crate-private block count / fill utilities of `algebra/csc/utils.rs`
 /// (thin call-through wrappers) and the KKT assembly hooks.
 pub mod c11 {
-    use crate::algebra::CscMatrix;
-    pub use crate::algebra::{MatrixShape, MatrixTriangle};
+    use crate::algebra::{CscMatrix, MatrixShape, MatrixTriangle};
+
+    /// `MatrixTriangle` / `MatrixShape` are not nameable outside the crate
+    pub fn triangle(triu: bool) -> MatrixTriangle {
+        if triu {
+            MatrixTriangle::Triu
+        } else {
+            MatrixTriangle::Tril
+        }
+    }
+    pub fn shape(transposed: bool) -> MatrixShape {
+        if transposed {
+            MatrixShape::T
+        } else {
+            MatrixShape::N
+        }
+    }
     pub use crate::solver::core::kktsolvers::direct::verif_hooks_kkt::*;
 
     pub fn colcount_dense_triangle(K: &mut CscMatrix<f64>, initcol: usize, blockcols: usize, shape: MatrixTriangle) {
